@@ -133,9 +133,9 @@ end
 theorem visitVarDef_E (h : CF c f g) (v : VarDef) (st : St) : E (visitVarDef c v st) = E st + total f g (varDefNodes v) := by
   rw [visitVarDef, varDefNodes, total_cons]
   refine visitNode_E h _ _ _ (fun st => ?_) st
-  rw [total_append, total_cons, total_nil, visitNode_E h _ id 0 (fun _ => rfl)]
+  rw [total_append, total_cons, visitDirectives_E h, visitNode_E h _ id 0 (fun _ => rfl)]
   cases v.default with
-  | none => simp [total_nil]
+  | none => simp only [total_nil]; omega
   | some d => simp only [visitValue_E h]; omega
 
 theorem visitDef_E (h : CF c f g) (d : Def) (st : St) : E (visitDef c d st) = E st + total f g (defNodes d) := by
